@@ -205,7 +205,7 @@ pub fn check_case(case: &Case, ctx: &mut Ctx) {
     judge_root(ctx, case, "BigDecimalRef::sqrt_copysign_with_context (negated input)", r, &want, &x.n, x.s, mode, true);
     // default-context form
     let (dp, dm) = default_ctx();
-    if p == dp || ctx.cases % 4 == 0 {
+    if p == dp || case.hash() % 4 == 0 {
         let want_d = model::root_rounded(&x.n, x.s, 2, dp, dm, false);
         let r = ctx.guard(|| b.sqrt()).map(|o| o.unwrap_or_else(|| BigDecimal::from(-1)));
         judge_root(ctx, case, "sqrt (default context)", r, &want_d, &x.n, x.s, dm, false);
